@@ -781,3 +781,49 @@ Definition c12_peek (toks : list (list N)) : list (list N) :=
           [if list_eqb N.eqb replayed stream then 1 else 0; lenN replayed]]
   | _ => REJECT_TOK
   end.
+
+(* ---------------- C18 ---------------- *)
+From TT Require Import Model.Channels.
+
+(* in: [channel; http2; _; rp_enabled; speedtest_enable; _; _] [method_kind] path headers [body]
+       headers: flat [name_len, name..., value_len, value...]*
+   out: [channel_code 0 tunnel | 1 ping | 2 speedtest | 3 reverse proxy] [status; body_len]   (tunnel: [0] only) *)
+Fixpoint c18_headers (fuel : nat) (b : list N) : list (list N * list N) :=
+  match fuel with
+  | O => []
+  | S f =>
+    match b with
+    | [] => []
+    | nl :: r => let name := takeN nl r in
+                 match dropN nl r with
+                 | vl :: r2 => (name, takeN vl r2) :: c18_headers f (dropN vl r2)
+                 | [] => []
+                 end
+    end
+  end.
+
+Definition c18_get (hs : list (list N * list N)) (name : list N) : option (list N) :=
+  match filter (fun h => list_eqb N.eqb (fst h) name) hs with h :: _ => Some (snd h) | [] => None end.
+
+Definition c18_session (toks : list (list N)) : list (list N) :=
+  match toks with
+  | [chan; http2; _; rp; st; _; _] :: [kind] :: path :: hdrs :: _ =>
+    let hs := c18_headers (length hdrs) hdrs in
+    let q := {| q_method := if kind =? 6 then 0 else if kind =? 7 then 1 else 2;
+                q_path := path;
+                q_ping_marker := match c18_get hs [120; 45; 112; 105; 110; 103] with Some [49] => true | _ => false end
+                                 || match c18_get hs [115; 101; 99; 45; 102; 101; 116; 99; 104; 45; 109; 111; 100; 101] with
+                                    | Some v => list_eqb N.eqb v [110; 97; 118; 105; 103; 97; 116; 101] | None => false end;
+                q_upgrade := match c18_get hs [117; 112; 103; 114; 97; 100; 101] with Some _ => true | None => false end;
+                q_content_length := c18_get hs [99; 111; 110; 116; 101; 110; 116; 45; 108; 101; 110; 103; 116; 104] |} in
+    let s := {| s_speedtest := st =? 1; s_rp_mask := if rp =? 1 then Some [47; 114; 112] else None |} in
+    let ch := if chan =? 1 then ChPing else if chan =? 2 then ChSpeedtest else if chan =? 3 then ChReverseProxy
+              else select (if http2 =? 1 then PH2 else PH1) s q in
+    match ch with
+    | ChPing => [[1]; [200; 0]]
+    | ChSpeedtest => let '(st, n) := speedtest_answer q [] in [[2]; [st; n]]
+    | ChReverseProxy => [[3]; [101; 23]]
+    | ChTunnel => [[0]]
+    end
+  | _ => REJECT_TOK
+  end.
